@@ -25,7 +25,8 @@ class CallsMixin:
         if fnv['k'] == 'builtin':
             return self.call_builtin(st, fr, b, i, ins, fnv['name'], args)
         if fnv['k'] == 'func':
-            callee = fnv['name']
+            from .program import normfn
+            callee = normfn(fnv['name'])
             binds = []
         else:
             fv = self.operand(st, fr, fnv)
@@ -63,7 +64,7 @@ class CallsMixin:
             params = [p['name'] for p in (sig.get('params') or [])]
             results = sig.get('results') or []
             fnd = self.prog.funcs.get(callee)
-            rn = (fnd or {}).get('resultnames') or []
+            rn = (fnd or {}).get('resultnames') or [r.get('name') or '' for r in results]
             if fnd is not None and fnd.get('freevars'):
                 raise OutOfSubset('contracted closure call')
             vals = self.apply_contract(st, fr, ins, con, callee, params, args, [r['type'] for r in results], rn)
@@ -277,7 +278,8 @@ class CallsMixin:
                 return 'all'
             return []
         if fnv['k'] == 'func':
-            callee = fnv['name']
+            from .program import normfn
+            callee = normfn(fnv['name'])
         else:
             return 'all' if not self.closure_static(fr, fnv) else self.closure_writes(st, fr, fnv, body)
         if callee in ERASED_CALLS:
